@@ -383,7 +383,8 @@ stage("overlap_add", params=ola_params, weight=5)(
 
 def stft_real(P, i, p):
   kw = dict(size=p["size"], transform=None, inverse_transform=None,
-            before=None, after=None, wnd=wnd_of(p))
+            before=None, after=None,
+            wnd=i[1] if p.get("wnd") == "iter" else wnd_of(p))
   if p["hop"] is not None:
     kw["hop"] = p["hop"]
   if p["ola"]:
@@ -413,6 +414,42 @@ stage("stft", params=stft_params, weight=4)(
                                 p["size"], hop_of(p))))
 stage("stft_no_ola", prod="blk", params=stft_blk_params, weight=3)(
   (stft_real, lambda i, p: M.m_blocks(i, p["size"], hop_of(p))))
+
+
+# the window handed over as a one-shot iterable (iterator, generator, Stream):
+# a second simulator-owned source of exactly ``size`` items, which may be read
+# (completely) when the first output is demanded, not when the stage is built
+def wnd_iter_params(W, ola=True):
+  p = ola_params(W)
+  p["wnd"] = "iter"
+  p["auto"] = False
+  p["ola"] = ola
+  return p
+
+
+def m_window_then(wnd, inner):
+  for v in wnd:          # the whole window, with the first output
+    pass
+  for v in inner:
+    yield v
+
+
+stage("overlap_add_wnd_iter", extra=("wnd",), params=wnd_iter_params,
+      weight=2)(
+  (lambda P, i, p: P.la.overlap_add.list(
+    P.lm.blocks(i[0], size=p["size"], hop=p["hop"]),
+    size=p["size"], hop=p["hop"], wnd=i[1], normalize=p["norm"]),
+   lambda i, p: m_window_then(i[1], M.m_overlap_add(
+     [M.m_blocks(i[:1], p["size"], hop_of(p))], p["size"], hop_of(p)))))
+stage("stft_wnd_iter", extra=("wnd",), params=wnd_iter_params, weight=2)(
+  (stft_real,
+   lambda i, p: m_window_then(i[1], M.m_overlap_add(
+     [M.m_blocks(i[:1], p["size"], hop_of(p))], p["size"], hop_of(p)))))
+stage("stft_no_ola_wnd_iter", prod="blk", extra=("wnd",),
+      params=lambda W: wnd_iter_params(W, False), weight=1)(
+  (stft_real,
+   lambda i, p: m_window_then(i[1], M.m_blocks(i[:1], p["size"],
+                                               hop_of(p)))))
 
 
 # ---------------------------------------------------------------------- mixer
